@@ -1,0 +1,55 @@
+// Copyright 2026. Contracts for deductive verification (gowp).
+// This file contains only comments; it is compiled only with -tags verif
+// and adds nothing to the package.
+
+//go:build verif
+
+package graphalg
+
+// ---------------------------------------------------------------------
+// NodeMarks (C18): a set of non-negative integers.
+// Model bv: indices are mathematical ints, words are 32-bit vectors.
+
+//@ spec member(m NodeMarks, i int) bool =
+//@     i >= 0 && i/32 < len(m.marks) && (m.marks[i/32] & bit32(i%32)) != 0
+
+//@ func NodeMarks.Test
+//@   model bv
+//@   ensures [def] result == member(m, i)
+//@   assigns nothing
+
+//@ func NodeMarks.grow
+//@   model bv
+//@   requires m != nil && i >= 0 && i/32 >= len(m.marks)
+//@   ensures [len]   len(m.marks) > i/32
+//@   ensures [keep]  forall w in 0..old(len(m.marks)) :: m.marks[w] == old(m.marks[w])
+//@   ensures [zero]  forall w in old(len(m.marks))..len(m.marks) :: m.marks[w] == 0
+//@   ensures [fresh] fresh(m.marks)
+//@   loop 1 invariant k >= 1
+//@   assigns *m
+
+//@ func NodeMarks.Mark
+//@   model bv
+//@   requires m != nil && i >= 0
+//@   ensures [set] forall j int :: member(*m, j) == (j == i || old(member(*m, j)))
+//@   assigns *m, m.marks[*]
+
+//@ func NodeMarks.Unmark
+//@   model bv
+//@   requires m != nil && i >= 0
+//@   ensures [set] forall j int :: member(*m, j) == (j != i && old(member(*m, j)))
+//@   assigns m.marks[*]
+
+//@ func NodeMarks.Next
+//@   model bv
+//@   requires i >= -1
+//@   ensures [none] result == -1 ==> (forall j int :: j > i ==> !member(m, j))
+//@   ensures [some] result != -1 ==> result > i && member(m, result) && (forall j in i+1..result :: !member(m, j))
+//@   loop 1 (bi) invariant i == old(i)+1 && i/32 < bi && bi <= len(m.marks) && shr32(m.marks[i/32], i%32) == 0 && (forall w in i/32+1..bi :: m.marks[w] == 0)
+//@   assigns nothing
+
+//@ func NewNodeMarks
+//@   model bv
+//@   ensures [empty] result != nil && (forall j int :: !member(*result, j))
+//@   ensures [fresh] fresh(result)
+//@   assigns nothing
